@@ -671,6 +671,7 @@ package builder
 //@   ensures [depth C06] DepthBal(p)
 //@   ensures [invert C12] p.maxFailInvertExpected == old(p.maxFailInvertExpected)
 //@   ensures [budget C16] p.ExprCnt >= old(p.ExprCnt) && (old(p.ExprCnt) <= p.maxExprCnt ==> p.ExprCnt <= p.maxExprCnt)
+//@   ensures [errs-kept C11 C17] ErrsKept(*p.errs, old(*p.errs))
 //@   ensures [memoized C06] MemoHas(p, old(p.pt.offset), rule) && MemoGrows(p)
 //@   safety C11
 //@   frame C18
@@ -977,6 +978,7 @@ package builder
 //@   ensures [depth C06] DepthBal(p)
 //@   ensures [invert C12] p.maxFailInvertExpected == old(p.maxFailInvertExpected)
 //@   ensures [budget C16] p.ExprCnt >= old(p.ExprCnt) && (old(p.ExprCnt) <= p.maxExprCnt ==> p.ExprCnt <= p.maxExprCnt)
+//@   ensures [errs-kept C11 C17] ErrsKept(*p.errs, old(*p.errs))
 // the final result is what the memo holds for (start, rule)
 //@   ensures [memo-final C08] MemoHas(p, old(p.pt.offset), rule) && p.memo[old(p.pt.offset)][rule].end == p.pt && p.memo[old(p.pt.offset)][rule].b == ok && p.memo[old(p.pt.offset)][rule].v == val
 // every growth attempt runs with the previous result seeded in the memo, from the start position
@@ -995,7 +997,7 @@ package builder
 //@   at "for {" ghost accErrs = *p.errs
 //@   at "lastResult = resultTuple{val, ok, endMark}" ghost accErrs = *p.errs
 //@   loop#1 invariant [accepted-errors C08 C11 C17] lastErrors == accErrs
-//@   loop#1 invariant [errs C08] *p.errs == lastErrors
+//@   loop#1 invariant [errs C08] *p.errs == lastErrors && ErrsKept(lastErrors, old(*p.errs))
 //@   loop#1 invariant [store C05] LoopStore(p) && (depth == 0 ==> StoreSame(p))
 //@   loop#1 invariant [stacks C02 C14] Stacks(p) && p.maxFailInvertExpected == old(p.maxFailInvertExpected)
 //@   loop#1 invariant [mono C16] p.ExprCnt >= old(p.ExprCnt) && (old(p.ExprCnt) <= p.maxExprCnt ==> p.ExprCnt <= p.maxExprCnt)
@@ -1016,6 +1018,7 @@ package builder
 //@   ensures [depth C06] DepthBal(p)
 //@   ensures [invert C12] p.maxFailInvertExpected == old(p.maxFailInvertExpected)
 //@   ensures [budget C16] p.ExprCnt >= old(p.ExprCnt) && (old(p.ExprCnt) <= p.maxExprCnt ==> p.ExprCnt <= p.maxExprCnt)
+//@   ensures [errs-kept C11 C17] ErrsKept(*p.errs, old(*p.errs))
 //@   safety C11
 //@   frame C18
 //@ #endif
@@ -1102,6 +1105,7 @@ package builder
 //@   ensures [invert C12] p.maxFailInvertExpected == old(p.maxFailInvertExpected)
 //@   ensures [charges C16] p.ExprCnt > old(p.ExprCnt)
 //@   ensures [budget C16] p.ExprCnt <= p.maxExprCnt
+//@   ensures [errs-kept C11 C17] ErrsKept(*p.errs, old(*p.errs))
 //@   safety C11 C13
 //@   frame C18
 
@@ -1130,6 +1134,7 @@ package builder
 //@   ensures [invert C12] p.maxFailInvertExpected == old(p.maxFailInvertExpected)
 //@   ensures [charges C16] p.ExprCnt > old(p.ExprCnt)
 //@   ensures [budget C16] p.ExprCnt >= old(p.ExprCnt) && (old(p.ExprCnt) <= p.maxExprCnt ==> p.ExprCnt <= p.maxExprCnt)
+//@   ensures [errs-kept C11 C17] ErrsKept(*p.errs, old(*p.errs))
 //@ #if lr && dbg
 // expressions inside a left-recursive rule are never memoized (their result depends on the seed)
 //@   before parser.getMemoized assert [no-memo-in-lr C06 C08] !p.rstack[len(p.rstack)-1].leftRecursive
@@ -1154,6 +1159,7 @@ package builder
 //@   ensures [depth C06] DepthBal(p)
 //@   ensures [invert C12] p.maxFailInvertExpected == old(p.maxFailInvertExpected)
 //@   ensures [budget C16] p.ExprCnt >= old(p.ExprCnt) && (old(p.ExprCnt) <= p.maxExprCnt ==> p.ExprCnt <= p.maxExprCnt)
+//@   ensures [errs-kept C11 C17] ErrsKept(*p.errs, old(*p.errs))
 //@   safety C11
 //@   frame C18
 
@@ -1169,6 +1175,7 @@ package builder
 //@   ensures [depth C06] DepthBal(p)
 //@   ensures [invert C12] p.maxFailInvertExpected == old(p.maxFailInvertExpected)
 //@   ensures [budget C16] p.ExprCnt >= old(p.ExprCnt) && (old(p.ExprCnt) <= p.maxExprCnt ==> p.ExprCnt <= p.maxExprCnt)
+//@   ensures [errs-kept C11 C17] ErrsKept(*p.errs, old(*p.errs))
 //@ #if lr
 // dispatch (C08): the leader grows the seed; other rules of the cycle are never memoized at rule level
 //@   before parser.parseRuleRecursiveLeader assert [leader C08 C10] rule.leader
@@ -1194,6 +1201,7 @@ package builder
 //@   ensures [depth C06] DepthBal(p)
 //@   ensures [invert C12] p.maxFailInvertExpected == old(p.maxFailInvertExpected)
 //@   ensures [budget C16] Budget(p)
+//@   ensures [errs-kept C11 C17] ErrsKept(*p.errs, old(*p.errs))
 //@   safety C11
 //@   frame C18
 
@@ -1210,13 +1218,14 @@ package builder
 //@   ensures [depth C06] DepthBal(p)
 //@   ensures [invert C12] p.maxFailInvertExpected == old(p.maxFailInvertExpected)
 //@   ensures [budget C16] Budget(p)
+//@   ensures [errs-kept C11 C17] ErrsKept(*p.errs, old(*p.errs))
 //@   loop#1 invariant [depth C06] DepthIn(p)
 //@   loop#1 invariant [inv] Inv(p) && InRule(p) && pt == old(p.pt)
 //@ #if state
 //@   loop#1 invariant [snap C05] Snap(p, state) && LoopStore(p)
 //@ #endif
 //@   loop#1 invariant [prefix C01] SeqPre(seq, p.data, idx, old(p.pt.offset), p.pt.offset, arr(vals)) && len(vals) == idx && off(vals) == 0
-//@   loop#1 invariant [mono] p.pt.offset >= old(p.pt.offset) && Budget(p)
+//@   loop#1 invariant [mono] p.pt.offset >= old(p.pt.offset) && Budget(p) && ErrsKept(*p.errs, old(*p.errs))
 //@   loop#1 invariant [stacks C02 C14] Stacks(p) && p.maxFailInvertExpected == old(p.maxFailInvertExpected)
 //@   safety C11
 //@   frame C18
@@ -1235,12 +1244,13 @@ package builder
 //@   ensures [depth C06] DepthBal(p)
 //@   ensures [invert C12] p.maxFailInvertExpected == old(p.maxFailInvertExpected)
 //@   ensures [budget C16] Budget(p)
+//@   ensures [errs-kept C11 C17] ErrsKept(*p.errs, old(*p.errs))
 //@   loop#1 invariant [depth C06] DepthIn(p)
 //@   loop#1 invariant [scope C02] TopKept(p)
 //@   loop#1 invariant [inv] Inv(p) && InRule(p) && p.pt == old(p.pt)
 //@   loop#1 invariant [store C05] StoreSame(p) && LoopStore(p)
 //@   loop#1 invariant [prefix C01] ChoicePre(ch, p.data, idx, old(p.pt.offset))
-//@   loop#1 invariant [mono] Budget(p)
+//@   loop#1 invariant [mono] Budget(p) && ErrsKept(*p.errs, old(*p.errs))
 //@   loop#1 invariant [stacks C02 C14] Stacks(p) && p.maxFailInvertExpected == old(p.maxFailInvertExpected)
 //@   safety C11
 //@   frame C18
@@ -1260,6 +1270,7 @@ package builder
 //@   ensures [depth C06] DepthBal(p)
 //@   ensures [invert C12] p.maxFailInvertExpected == old(p.maxFailInvertExpected)
 //@   ensures [budget C16] Budget(p)
+//@   ensures [errs-kept C11 C17] ErrsKept(*p.errs, old(*p.errs))
 //@   safety C11
 //@   frame C18
 
@@ -1278,6 +1289,7 @@ package builder
 //@   ensures [depth C06] DepthBal(p)
 //@   ensures [invert C12] p.maxFailInvertExpected == old(p.maxFailInvertExpected)
 //@   ensures [budget C16] Budget(p)
+//@   ensures [errs-kept C11 C17] ErrsKept(*p.errs, old(*p.errs))
 //@   before parser.parseExprWrap assert [inverted C12] p.maxFailInvertExpected == !old(p.maxFailInvertExpected)
 //@   safety C11
 //@   frame C18
@@ -1296,6 +1308,7 @@ package builder
 //@   ensures [depth C06] DepthBal(p)
 //@   ensures [invert C12] p.maxFailInvertExpected == old(p.maxFailInvertExpected)
 //@   ensures [budget C16] Budget(p)
+//@   ensures [errs-kept C11 C17] ErrsKept(*p.errs, old(*p.errs))
 //@   safety C11
 //@   frame C18
 
@@ -1313,12 +1326,13 @@ package builder
 //@   ensures [depth C06] DepthBal(p)
 //@   ensures [invert C12] p.maxFailInvertExpected == old(p.maxFailInvertExpected)
 //@   ensures [budget C16] Budget(p)
+//@   ensures [errs-kept C11 C17] ErrsKept(*p.errs, old(*p.errs))
 //@   loop#1 invariant [depth C06] DepthIn(p)
 //@   loop#1 invariant [scope C02] TopKept(p)
 //@   loop#1 invariant [inv] Inv(p) && InRule(p)
 //@   loop#1 invariant [store C05] LoopStore(p)
 //@   loop#1 invariant [iter C01] exists k int :: k >= 0 && RepPre(expr.expr, p.data, k, old(p.pt.offset), p.pt.offset, arr(vals)) && len(vals) == k && off(vals) == 0
-//@   loop#1 invariant [mono] p.pt.offset >= old(p.pt.offset) && Budget(p)
+//@   loop#1 invariant [mono] p.pt.offset >= old(p.pt.offset) && Budget(p) && ErrsKept(*p.errs, old(*p.errs))
 //@   loop#1 invariant [stacks C02 C14] Stacks(p) && p.maxFailInvertExpected == old(p.maxFailInvertExpected)
 //@   loop#1 decreases [C16] p.maxExprCnt - p.ExprCnt
 //@   safety C11
@@ -1338,13 +1352,14 @@ package builder
 //@   ensures [depth C06] DepthBal(p)
 //@   ensures [invert C12] p.maxFailInvertExpected == old(p.maxFailInvertExpected)
 //@   ensures [budget C16] Budget(p)
+//@   ensures [errs-kept C11 C17] ErrsKept(*p.errs, old(*p.errs))
 //@   loop#1 invariant [depth C06] DepthIn(p)
 //@   loop#1 invariant [scope C02] TopKept(p)
 //@   loop#1 invariant [inv] Inv(p) && InRule(p)
 //@   loop#1 invariant [store C05] LoopStore(p)
 //@   loop#1 invariant [iter C01] exists k int :: k >= 0 && RepPre(expr.expr, p.data, k, old(p.pt.offset), p.pt.offset, arr(vals)) && len(vals) == k && off(vals) == 0
 //@   loop#1 invariant [first] len(vals) == 0 ==> p.pt == old(p.pt) && StoreSame(p)
-//@   loop#1 invariant [mono] p.pt.offset >= old(p.pt.offset) && Budget(p)
+//@   loop#1 invariant [mono] p.pt.offset >= old(p.pt.offset) && Budget(p) && ErrsKept(*p.errs, old(*p.errs))
 //@   loop#1 invariant [stacks C02 C14] Stacks(p) && p.maxFailInvertExpected == old(p.maxFailInvertExpected)
 //@   loop#1 decreases [C16] p.maxExprCnt - p.ExprCnt
 //@   safety C11
@@ -1365,6 +1380,7 @@ package builder
 //@   ensures [bind C02] ok && lab.label != "" ==> has(p.vstack[len(p.vstack)-1], lab.label) && p.vstack[len(p.vstack)-1][lab.label] == val
 //@   ensures [invert C12] p.maxFailInvertExpected == old(p.maxFailInvertExpected)
 //@   ensures [budget C16] Budget(p)
+//@   ensures [errs-kept C11 C17] ErrsKept(*p.errs, old(*p.errs))
 //@   safety C11
 //@   frame C18
 
@@ -1382,6 +1398,7 @@ package builder
 //@   ensures [depth C06] DepthBal(p)
 //@   ensures [invert C12] p.maxFailInvertExpected == old(p.maxFailInvertExpected)
 //@   ensures [budget C16] Budget(p)
+//@   ensures [errs-kept C11 C17] ErrsKept(*p.errs, old(*p.errs))
 //@   all-calls actionExpr.run [err-recorded C11] err != nil ==> len(*p.errs) >= 1 && IsPErr((*p.errs)[len(*p.errs)-1], err, old(p.pt.position))
 // the block runs only after a match and sees the matched bytes and the start position (C02)
 //@   before actionExpr.run assert [ctx C02] ok && p.cur.pos == old(p.pt.position) && p.cur.text == p.data[old(p.pt.offset):p.pt.offset]
@@ -1407,6 +1424,7 @@ package builder
 //@   ensures [depth C06] DepthBal(p)
 //@   ensures [invert C12] p.maxFailInvertExpected == old(p.maxFailInvertExpected)
 //@   ensures [budget C16] Budget(p)
+//@   ensures [errs-kept C11 C17] ErrsKept(*p.errs, old(*p.errs))
 //@   all-calls andCodeExpr.run [err-recorded C11] err != nil ==> len(*p.errs) >= 1 && IsPErr((*p.errs)[len(*p.errs)-1], err, p.pt.position)
 // predicate blocks see the current position and an empty text (C02)
 //@   before andCodeExpr.run assert [ctx C02] p.cur.pos == p.pt.position && len(p.cur.text) == 0
@@ -1432,6 +1450,7 @@ package builder
 //@   ensures [depth C06] DepthBal(p)
 //@   ensures [invert C12] p.maxFailInvertExpected == old(p.maxFailInvertExpected)
 //@   ensures [budget C16] Budget(p)
+//@   ensures [errs-kept C11 C17] ErrsKept(*p.errs, old(*p.errs))
 //@   all-calls notCodeExpr.run [err-recorded C11] err != nil ==> len(*p.errs) >= 1 && IsPErr((*p.errs)[len(*p.errs)-1], err, p.pt.position)
 //@   before notCodeExpr.run assert [ctx C02] p.cur.pos == p.pt.position && len(p.cur.text) == 0
 //@   safety C11
@@ -1451,6 +1470,7 @@ package builder
 //@   ensures [depth C06] DepthBal(p)
 //@   ensures [invert C12] p.maxFailInvertExpected == old(p.maxFailInvertExpected)
 //@   ensures [budget C16] Budget(p)
+//@   ensures [errs-kept C11 C17] ErrsKept(*p.errs, old(*p.errs))
 //@   all-calls stateCodeExpr.run [err-recorded C11] err != nil ==> len(*p.errs) >= 1 && IsPErr((*p.errs)[len(*p.errs)-1], err, p.pt.position)
 //@   before stateCodeExpr.run assert [ctx C02] p.cur.pos == p.pt.position && len(p.cur.text) == 0
 //@   safety C11
@@ -1470,6 +1490,7 @@ package builder
 //@   ensures [depth C06] DepthBal(p)
 //@   ensures [invert C12] p.maxFailInvertExpected == old(p.maxFailInvertExpected)
 //@   ensures [budget C16] Budget(p)
+//@   ensures [errs-kept C11 C17] ErrsKept(*p.errs, old(*p.errs))
 // the handlers are in force exactly while the guarded expression is evaluated (C14)
 //@   before parser.parseExprWrap assert [in-force C14] len(p.recoveryStack) == old(len(p.recoveryStack)) + 1
 //@   safety C11
@@ -1489,11 +1510,12 @@ package builder
 //@   ensures [depth C06] DepthBal(p)
 //@   ensures [invert C12] p.maxFailInvertExpected == old(p.maxFailInvertExpected)
 //@   ensures [budget C16] Budget(p)
+//@   ensures [errs-kept C11 C17] ErrsKept(*p.errs, old(*p.errs))
 //@   loop#1 invariant [depth C06] DepthIn(p)
 //@   loop#1 invariant [inv] Inv(p) && InRule(p) && p.pt == old(p.pt) && i < len(p.recoveryStack)
 //@   loop#1 invariant [store C05] StoreSame(p) && LoopStore(p)
 //@   loop#1 invariant [search C14] i >= 0 - 1 && ThrowPre(old(p.recoveryStack), i, expr.label, p.data, old(p.pt.offset))
-//@   loop#1 invariant [mono] Budget(p)
+//@   loop#1 invariant [mono] Budget(p) && ErrsKept(*p.errs, old(*p.errs))
 //@   loop#1 invariant [stacks C02 C14] Stacks(p) && p.maxFailInvertExpected == old(p.maxFailInvertExpected)
 //@   loop#1 decreases [C16] i + 1
 // handlers are in force only while their guarded expression is being evaluated (C14): while the recovery expression
